@@ -35,6 +35,10 @@ func runC06(c *Ctx) {
 	// applies must be the documented strict two-sided one (a window shifted or narrowed by rounding refuses such clients)
 	c.importing = "C07"
 	c07R2(c, "C07.R2")
+	// the server must take the sealed block from where the client put it: the carriers' exact lengths and the walk over
+	// the ClientHello's key-share entries (group ‖ length ‖ key) — a parser that finds the x25519 share by pattern can pick
+	// bytes out of another share and the two ends no longer agree on the ciphertext
+	c07R3(c, "C07.R3")
 	c.importing = ""
 }
 
